@@ -743,6 +743,7 @@ def flatten(self, *dims, **kwargs):
 
         # new array shape, assuming dimensions are properly aligned
         newdims = [ax.name for ax in self.axes if ax.name not in dims]
+        insert = min(insert, len(newdims)) # cannot insert past the remaining dimensions (else infinite recursion)
         newdims = newdims[:insert] + list(dims) + newdims[insert:]
     
         b = self.transpose(newdims) # dimensions to factorize in the front
